@@ -119,6 +119,12 @@ def build(inp):
     ll = LensLikelihood(z_lens=inp["z_lens"], z_source=inp["z_source"], likelihood_type=t, lambda_scaling_property=inp["x"],
                         lambda_scaling_property_beta=inp["y"], mst_ifu=inp["mst_ifu"], alpha_lambda_sampling=True, beta_lambda_sampling=True,
                         lambda_mst_distribution=inp["lam_dist"], normalized=inp["normalized"], num_distribution_draws=7, **extra, **kw)
+    # the same lens as a sample of one: the population-level switches travel through kwargs_global_model, the rest with the lens
+    GLOBAL = ["anisotropy_model", "anisotropy_sampling", "anisotropy_distribution", "gamma_pl_global_sampling", "gamma_pl_global_dist", "los_distributions"]
+    glob = dict(alpha_lambda_sampling=True, beta_lambda_sampling=True, lambda_mst_distribution=inp["lam_dist"], **{k: extra[k] for k in GLOBAL if k in extra})
+    per_lens = dict(z_lens=inp["z_lens"], z_source=inp["z_source"], likelihood_type=t, lambda_scaling_property=inp["x"], lambda_scaling_property_beta=inp["y"],
+                    mst_ifu=inp["mst_ifu"], num_distribution_draws=7, **{k: v for k, v in extra.items() if k not in GLOBAL}, **kw)
+    build.sample_args = (per_lens, glob)
     return ll, kw, names, axes, grids, prior
 
 
@@ -290,6 +296,18 @@ def run_case(rec, inp):
         # closed forms use np.linalg.solve instead of inv: 1e-8 relative
         if not same(v, fscalar(cf) + e["prior"], rtol=1e-8, atol=1e-8):
             vio("C03:closed_form:" + t, "value != closed formula at the rescaled distances", v, fscalar(cf) + e["prior"])
+    # ---- 1b. the same lens reached the standard way, as a sample of one lens with the population switches in the global model settings
+    if inp["gamma_mode"] != "index":
+        try:
+            from hierarc.Likelihood.lens_sample_likelihood import LensSampleLikelihood
+            per_lens, glob = build.sample_args
+            sl = LensSampleLikelihood([per_lens], normalized=inp["normalized"], kwargs_global_model=glob)
+            np.random.seed(12345)
+            vs_ = fscalar(sl.log_likelihood(cosmo, **hyper(inp, hp)))
+            if np.isfinite(v) and not same(vs_, v):
+                vio("C03:sample_route:" + t, "the lens evaluated as a sample of one (population switches passed in kwargs_global_model) != the same lens evaluated alone", vs_, v, lam_lens=e["lam_l"])
+        except Exception as ex:
+            vio("C03:raises:sample_route:" + t, "the lens evaluated as a sample of one raised", repr(ex)[:200], "a value")
     if inp["stream"] == "floor": return
     # ---- 2. neutral values
     hp0 = dict(hp, lam=1.0, lifu=1.0, al=0.0, be=0.0, kap=0.0, gppn=1.0)
